@@ -75,6 +75,18 @@ Proof.
 Qed.
 Print Assumptions C10_end_depends_on_its_elements.
 
+(* the per-iteration copies of the template (ParallelModel.element_args): with them every
+   element job passes its own (i, s[i]) whatever loop-variable semantics the Go version has;
+   C10_loop_vars_refuted shows what a dropped copy does under the semantics before Go 1.22
+   (the harness module declares go 1.19, so a dropped copy is visible to the correspondence) *)
+Theorem C10_element_arguments :
+  forall (V : Type) (d : V) sem s i, element_args V d OwnCopy sem s i = (i, nth i s d).
+Proof. exact own_copy_args. Qed.
+Print Assumptions C10_element_arguments.
+
+Example C10_loop_vars_refuted : element_args nat 0 LoopVars false [7; 8] 0 = (1, 8).
+Proof. exact loop_vars_refuted. Qed.
+
 (* a Task, a Slice of 3 with SliceEnd, a Map of 2 without hook: the End job (index 4)
    depends on exactly the three element jobs; with element 1 failing it cannot run *)
 Definition ex_par := par_flow [PTask true; PColl 3 true true true; PColl 2 false false false].
